@@ -478,6 +478,27 @@ def probe_cone_domains_and_affine_duals():
                 if ref[0] == 'solved' and not (stt == 'solved' and abs(val - ref[1]) <= 1e-4 * (1 + abs(ref[1]))):
                     return ('min c.v over the dual SAGE cone with v = v0 + w (affine with constant offsets), v_0 = 1: (compact_dual, presolve, given %s) = (%s, %s) '
                             'reports (%s, %r); the dual bound is %r' % (how, comp, pre, stt, val, ref[1]))
+            # (d) a term with a VARIABLE coefficient that ends up in no AGE cover (s exp(2 x2), s >= 1): max t s.t. 5 + exp(2 x1) - t exp(x1) + s exp(2 x2) is SAGE
+            # is sqrt(20) under every combination of presolve / forced equality, given globally or per constraint
+            alpha_d = np.array([[0.0, 0.0], [2.0, 0.0], [1.0, 0.0], [0.0, 2.0]])
+            for pre, feq, how in itertools.product((False, True), (False, True), ('global', 'override')):
+                sc.SETTINGS.update(saved)
+                td = cl.Variable(shape=(1,), name='unc_t_%d%d%s' % (pre, feq, how))
+                sd = cl.Variable(shape=(1,), name='unc_s_%d%d%s' % (pre, feq, how))
+                cd_ = cl.Expression([5.0, 1.0, -td[0], sd[0]])
+                st_ = {'presolve_trivial_age_cones': pre, 'sum_age_force_equality': feq}
+                try:
+                    if how == 'global':
+                        sc.SETTINGS.update(st_)
+                        con = cl.PrimalSageCone(cd_, alpha_d, None, 'unc')
+                    else:
+                        con = cl.PrimalSageCone(cd_, alpha_d, None, 'unc', settings=st_)
+                    stt, val = cl.Problem(cl.MAX, td[0], [con, sd >= 1, sd <= 3]).solve(verbose=False)
+                except RuntimeError:
+                    stt, val = 'solved', -math.inf
+                if not (stt == 'solved' and abs(val - math.sqrt(20.0)) <= 1e-4):
+                    return ('max t s.t. 5 + exp(2 x1) - t exp(x1) + s exp(2 x2) SAGE, 1 <= s <= 3 (the term of s lies in no AGE cover): (presolve, force_equality, given %s) = (%s, %s) '
+                            'reports (%s, %r); the value is sqrt(20) = %r' % (how, pre, feq, stt, val, math.sqrt(20.0)))
     finally:
         sc.SETTINGS.clear()
         sc.SETTINGS.update(saved)
